@@ -515,6 +515,43 @@ def wl_projective(run, rng, idx):
                     break
             Y = (flat * sgn[..., None]).reshape(shp + (nv, 3))
             return rd.apply_columns(np.linalg.inv(A), Y)
+
+        def wedge_points(shp, nv):
+            """polygons crossing the line at infinity whose vertices lie far outside
+            the view: one run of vertices (positive representatives) around the point
+            at distance L = 0.5..50 view diameters from the view's centre, the other
+            run (negative representatives) either further out on the same side --
+            then the unbounded edges come back through the window -- or on the
+            opposite side; regenerated until the representatives span a convex cone
+            (always for triangles), so that the coverage of the view is judged.
+            Seeded change C19-r5-2."""
+            diam = math.hypot(d.xlim[1] - d.xlim[0], d.ylim[1] - d.ylim[0])
+            ctr = np.array([np.mean(d.xlim), np.mean(d.ylim)])
+            out = np.empty(shp + (nv, 3))
+            for t, ind in enumerate(np.ndindex(*shp)):
+                for _ in range(60):
+                    th = rng.uniform(0, 2 * math.pi)
+                    e = np.array([math.cos(th), math.sin(th)])
+                    tt = np.array([-e[1], e[0]])
+                    L = diam * math.exp(rng.uniform(math.log(0.5), math.log(50)))
+                    if (t + idx) % 3 != 2:
+                        L2 = min(L * rng.uniform(1.5, 4.0), 1500.0)
+                    else:
+                        L2 = -diam * math.exp(rng.uniform(math.log(0.5), math.log(50)))
+                    m1 = int(rng.integers(1, nv))
+
+                    def cluster(m, dist):
+                        tau = np.sort(rng.uniform(-1, 1, m)) * rng.uniform(0.02, 0.4) * abs(dist)
+                        along = dist * (1 + rng.uniform(-0.1, 0.1, m))
+                        return ctr - along[:, None] * e + tau[:, None] * tt
+                    aff = np.concatenate([cluster(m1, L), cluster(nv - m1, L2)[::-1]])
+                    Y = np.insert(aff, 0, 1.0, axis=-1)
+                    Y[m1:] *= -1.0
+                    Y = Y * rng.uniform(0.5, 2, size=(nv, 1)) * rng.choice([-1.0, 1.0])
+                    if rd.convex_cone_orientation(Y) != 0:
+                        break
+                out[ind] = np.roll(Y, int(rng.integers(nv)), axis=0)
+            return rd.apply_columns(np.linalg.inv(A), out)
         run.current_case = {"workload": "projective", "what": what, "chart": ci, "matrix": A}
         if what == "point":
             d.draw_point(PR.Point(chart_points(shape)), **({"color": "green"} if idx % 2 else {}))
@@ -524,11 +561,15 @@ def wl_projective(run, rng, idx):
         else:
             nv = int(rng.integers(3, 9))
             # assume_affine=False: polygons inside the chart / crossing its line at
-            # infinity / both kinds in one composite (idx % 3 is free here: this
-            # option exists for the standard chart only)
-            variant = ["in-chart", "crossing", "mixed"][idx % 3] if what != "polygon" else "in-chart"
+            # infinity / both kinds in one composite and polygons with vertices
+            # far outside the view
+            variant = ["in-chart", "crossing", "mixed", "far-wedge"][(idx + idx // 24) % 4] \
+                if what != "polygon" else "in-chart"
             if variant == "in-chart":
                 X = chart_points(shape + (nv,))
+            elif variant == "far-wedge":
+                nv = 3 + nv % 3
+                X = wedge_points(shape, nv)
             else:
                 X = crossing_points(shape, nv, variant == "mixed")
             run.current_case["vertices"] = X
@@ -539,6 +580,50 @@ def wl_projective(run, rng, idx):
                 d.draw_polygon(poly, assume_affine=False, **({"facecolor": "lightblue"} if idx % 2 else {}))
             what = what if variant == "in-chart" else what + "/" + variant
         run.note_class("projective", what, ci, tk, shape, setting)
+    finally:
+        plt.close("all")
+
+
+def wl_special_positions(run, rng, idx):
+    """exact special positions (generator gen/c11special: small dyadic Klein
+    coordinates, lifts scaled by powers of two): a segment / polygon edge whose
+    second endpoint is exactly the origin or the foot of the perpendicular from
+    the origin, axis-parallel edges ending on an axis, antipodal endpoints,
+    chords through the origin, endpoints on two axes; class 8: the pre-image of
+    the origin under an exact dyadic boost that is the drawing's transform.
+    Intermediate quantities of the library's formulas are then exactly zero
+    (seeded change C19-r5-3: sign(b) == 0 in a 'stable' quadratic formula gives
+    NaN ideal endpoints, and the drawing code silently draws its straight /
+    vertical substitute for a genuine arc).  The attached postconditions judge
+    the artists against the true geodesic: a straight piece is accepted only
+    above the radius threshold."""
+    H, D, PR, plt = libs()
+    from ..gen import c11special as SP
+    model = HMODELS[idx % 3]
+    c = (idx // 3) % SP.N_CLASSES
+    shape = [(), (3,), (2, 2)][(idx // 27) % 3] if idx % 2 else ()
+    spec = None
+    A = np.eye(3)
+    kwargs = {}
+    if c == 8:
+        spec = SP.boost_spec(rng, 2)
+        A, _, _ = SP.exact_boost(2, spec["axis"], spec["k"])
+        kwargs["transform"] = H.Isometry(A, column_vectors=True)
+    try:
+        seg = SP.draw(rng, "H.Segment", 2, shape, c, spec)
+        pol = SP.draw(rng, "H.Polygon", 2, shape[:1], c, spec, nv=3 + (idx // 2) % 4)
+        run.current_case = {"workload": "special-positions", "model": model, "class": c,
+                            "segment_class": SP.SEG_CLASSES[c % 8] if c < 8 else "boost-preimage-of-origin",
+                            "polygon_class": SP.POLY_CLASSES[c % 5] if c < 8 else "boost-preimage-of-origin",
+                            "matrix": A, "P": seg["P"], "Q": seg["Q"], "vertices": pol["X"]}
+        d = D.HyperbolicDrawing(model=model, **kwargs)
+        d._gtmon_matrix = A
+        d.draw_geodesic(H.Segment(H.Point(seg["P"]), H.Point(seg["Q"])))
+        d.draw_polygon(H.Polygon(pol["X"]), facecolor="lightgreen")
+        # the polygon's edges as segments, and the reversed segment
+        d.draw_geodesic(H.Polygon(pol["X"]).get_edges())
+        d.draw_geodesic(H.Segment(np.stack([seg["Q"], seg["P"]], axis=-2)))
+        run.note_class("special-positions", model, c, shape)
     finally:
         plt.close("all")
 
@@ -607,6 +692,7 @@ WORKLOADS = [
     Workload("points", wl_points, quick=72, thorough=720),
     Workload("horo", wl_horo, quick=60, thorough=1200),
     Workload("projective", wl_projective, quick=96, thorough=1512),
+    Workload("special-positions", wl_special_positions, quick=27, thorough=540),
     Workload("wrong-dimension", wl_wrong_dimension, quick=48, thorough=192),
     Workload("docs", wl_docs, quick=18, thorough=180),
 ]
